@@ -56,8 +56,8 @@ def gen_model(r, *, budget=6000, max_T=4, force=None):
     T = min(T, max_T)
     if force & {"f1", "f1two"} and T < 2:
         T = 2
-    if "f1two" in force and T < 3:
-        T = 3
+    if force & {"f1two", "pconstraint"} and T < 3:
+        T = min(3, max_T) if "pconstraint" in force else 3
     n_cs = r.choice([0, 0, 1, 1, 2])
     n_ds = r.choice([0, 1, 1, 2, 3])
     if n_cs + n_ds == 0:
@@ -361,6 +361,12 @@ def gen_model(r, *, budget=6000, max_T=4, force=None):
         slack = lmin - (gmin(rhs_v) if rhs_v else 0) + r.choice([0, Fr(1, 2), 1, 2])
         args = lhs_vars + ([rhs_v] if rhs_v else [])
         rhs = ["add", V(rhs_v), N(slack)] if rhs_v else N(slack)
+        if "pconstraint" in force and i == 0:
+            # the period enters the specification through this constraint (and, with `noperiod`, through nothing else): the
+            # bound relaxes by one half per period, so the admissible sets of periods 0, 1, 2, ... differ
+            rhs = ["add", rhs, ["mul", N(Fr(1, 2)), V("_period")]]
+            args = args + ["_period"]
+            meta["pconstraint"] = True
         pn = None
         if collide or r.random() < 0.3:
             pn = "kappa"
